@@ -244,10 +244,25 @@ def gen(rng, tier, prop):
         for s in b.fb:
             if rng.random() < 0.6:
                 b.recorder([s])
+    end = min(end, start + _span_limit(b.nodes))
     case = b.case(start, end)
     if rng.random() < 0.06:
         case = _malform(rng, case)
     return case
+
+
+def _span_limit(nodes):
+    """Values are int64 in the implementation (and 63-bit in the model runner's printer) but unbounded in
+    the model: keep emitted sums far below 2^62.  A loop through nodes that each add up several inputs
+    multiplies the value every cycle by at most the product of the fan-ins."""
+    import math
+    amp = 1
+    for l in nodes:
+        if l[0] == 2 and l[4] and l[5] > 1:
+            amp *= l[5]
+    if amp <= 1:
+        return 1000
+    return max(4, int(50 / math.log2(amp)))
 
 
 def _malform(rng, case):
